@@ -353,8 +353,17 @@ def run_trace(cfg, ops):
                     d_diff = ka.dict_archive('diff', dict(cur, **{'__extra__': 1}), cached=False)
                     line = None
                     tb = lambda x: bool(x) if x is not NotImplemented else 'NotImplemented'
-                    out = dict(o='eqd', v=[tb(arch[hi] == d_same), tb(d_same == arch[hi]), tb(arch[hi] == d_diff), tb(d_diff == arch[hi]),
-                                           tb(arch[hi] != d_same), tb(d_diff != arch[hi])])
+                    v_ = [tb(arch[hi] == d_same), tb(d_same == arch[hi]), tb(arch[hi] == d_diff), tb(d_diff == arch[hi]),
+                          tb(arch[hi] != d_same), tb(d_diff != arch[hi])]
+                    # same size, different key sets, the differing key holds None / a falsy value (a missing key is not a stored None)
+                    for filler in (None, 0):
+                        if cur and not (cfg['kind'] == 'file' and cfg['codec'] == 'json' and False):
+                            k0 = sorted(cur, key=repr)[0]
+                            sw = {k: v for k, v in cur.items() if k != k0}; sw['__other__'] = filler
+                            d_sw = ka.dict_archive('swap', sw, cached=False)
+                            v_ += [tb(arch[hi] == d_sw), tb(d_sw == arch[hi])]
+                        else: v_ += [False, False]
+                    out = dict(o='eqd', v=v_)
                 elif kind == 'dump':
                     if hand[hi] is arch[hi]: continue
                     H.dump(); out = dict(o='unit')
@@ -417,10 +426,10 @@ def monitor(tr):
     for rec in tr['recs']:
         line, out, obs = rec['line'], rec['out'], rec['obs']
         if line is None:
-            if out.get('o') == 'eqd' and cfg['kind'] != 'null' and out['v'] != [True, True, False, False, False, True]:
+            if out.get('o') == 'eqd' and cfg['kind'] != 'null' and out['v'] != [True, True, False, False, False, True, False, False, False, False]:
                 return [dict(prop='C03', i=rec['i'], sig=dict(backend=cfg['kind'], codec=cfg['codec'], cause='none', what='eq', op='eq'),
                              msg='%s archive: == / != against a dict_archive with the same contents and one with an extra key gave %r '
-                                 '(a==same, same==a, a==diff, diff==a, a!=same, diff!=a)' % (cfg['kind'], out['v']))]
+                                 '(a==same, same==a, a==diff, diff==a, a!=same, diff!=a, then == both ways against same-size archives whose one differing key holds None / 0)' % (cfg['kind'], out['v']))]
             continue
         op, h = line['op'], line['h']
         d = D[h]
